@@ -3,7 +3,8 @@
 usage: tools/seeded.py <worktree> <N> <prop> [<other props to run too>...]
  1. confirms in the worktree: diff applies to the clean tree, test-suite numbers equal the baseline with the change,
     demo fails with the change and passes without it;
- 2. applies the diff to /repo, runs ./check <prop> (and the other props), undoes it (git -C /repo checkout -- .);
+ 2. applies the diff to a scratch copy of /repo's working tree (src + tests, under /tmp, removed afterwards) and runs ./check <prop>
+    (and the other props) with VERIF_REPO pointing at it;
  3. stores patch, demo, notes and meta.json under /verif/seeded/<prop>-<name>/.
 """
 import json, os, re, shutil, subprocess, sys
@@ -21,21 +22,27 @@ t = sh(f"{env} /venv/bin/python -m pytest -q -p no:cacheprovider --timeout=900 -
 sh(f"cd {wt} && git checkout -- src")
 meta["confirmed"] = bool(meta["applies_to_clean_tree"] and meta["demo_on_clean_tree_exit"] == 0 and meta["demo_with_change_exit"] != 0
                          and "1178 passed" in meta["test_suite_with_change"] and "4 failed" in meta["test_suite_with_change"])
-# --- run the checks against /repo with the change applied
-a = sh(f"git -C /repo apply {diff}")
-meta["applies_to_repo_head"] = a.returncode == 0
+# --- run the checks against a scratch copy of /repo's working tree with the change applied (same as tools/reseed.py; /repo itself
+#     stays untouched so that checks running at the same time are not disturbed)
+import tempfile
+t = tempfile.mkdtemp(prefix="verif_seed_")
 results = {}
-if a.returncode == 0:
-    try:
+try:
+    shutil.copytree("/repo/src", t + "/src")
+    shutil.copytree("/repo/tests", t + "/tests")
+    a = sh(f"cd {t} && patch -p1 -s < {diff}")
+    meta["applies_to_repo_head"] = a.returncode == 0
+    if a.returncode == 0:
         for p in [prop] + others:
-            r = sh(f"cd {HERE} && VERIF_SCRATCH=/tmp/seeded_out ./check {p}")
-            lines = [l for l in r.stdout.splitlines() if l.startswith(("VIOLATION", "UNDECIDED", "CHECKER", "HELD", "KNOWN", "exit="))]
-            results[p] = {"exit": r.returncode, "lines": [l[:300] for l in lines[:4]]}
-    finally:
-        sh("git -C /repo checkout -- .")
-        shutil.rmtree("/tmp/seeded_out", ignore_errors=True)
+            r = sh(f"cd {HERE} && ./check {p} --tier quick", env={**os.environ, "VERIF_REPO": t, "VERIF_SCRATCH": t + "/out", "VERIF_JOBS": "8"})
+            lines = [l.replace(t, "<scratch>") for l in r.stdout.splitlines() if l.startswith(("VIOLATION", "UNDECIDED", "CHECKER", "HELD", "KNOWN", "exit="))]
+            results[p] = {"exit": r.returncode, "lines": [l[:300] for l in lines[:4]], "first": next((l for l in lines if l.startswith(("VIOLATION", "UNDECIDED", "CHECKER"))), "")[:300]}
+finally:
+    shutil.rmtree(t, ignore_errors=True)
 meta["checks"] = results
 meta["detected_by"] = [p for p, v in results.items() if v["exit"] == 1]
+meta["latest"] = {p: {"exit": v["exit"], "first": v["first"]} for p, v in results.items()}
+meta["also_run"] = sorted(results)
 name = re.sub(r"[^A-Za-z0-9]+", "-", os.path.basename(wt)) + f"-{n}"
 out = f"{HERE}/seeded/{prop}-{name}"
 os.makedirs(out, exist_ok=True)
